@@ -144,9 +144,11 @@ impl Relation for ZkirRelation {
     }
 
     fn read_relation<R: io::Read>(reader: &mut R) -> io::Result<Self> {
-        let program = bincode::decode_from_std_read(reader, bincode::config::standard())
-            .map(|(program, _bytes_read): (Program, usize)| program)
-            .map_err(io::Error::other)?;
+        // NB: `decode_from_std_read` returns the decoded value only (unlike
+        // `decode_from_slice`, it does not return the number of bytes read).
+        let program: Program =
+            bincode::decode_from_std_read(reader, bincode::config::standard())
+                .map_err(io::Error::other)?;
 
         Self::from_instructions(&program.instructions)
             .map_err(|e| io::Error::other(format!("{e:?}")))
